@@ -13,13 +13,59 @@ def iterates_all_bundlers(loop) -> bool:
     return isinstance(loop, (ast.For, ast.AsyncFor)) and A.norm(loop.iter) in ALL_BUNDLERS
 
 
+def evaluated_unconditionally(stmt, node) -> bool:
+    """``node`` is evaluated whenever ``stmt`` (a simple statement or the header of a compound one) is executed: it is not in
+    the right operand of and / or, a branch of a conditional expression, a comprehension, a lambda or a nested statement body"""
+    pm = A.parents(stmt)
+    cur = node
+    while cur is not stmt:
+        par = pm.get(cur)
+        if par is None:
+            return False
+        if isinstance(par, ast.BoolOp) and par.values[0] is not cur:
+            return False
+        if isinstance(par, ast.IfExp) and par.test is not cur:
+            return False
+        if isinstance(par, (ast.Lambda, ast.ListComp, ast.SetComp, ast.DictComp, ast.GeneratorExp)):
+            return False
+        if isinstance(par, ast.Compare) and False:
+            return False
+        if isinstance(par, ast.stmt) and par is not stmt:
+            return False
+        cur = par
+    return True
+
+
 def broadcast_loops(func_node, method: str):
-    """for-loops over every open run's bundler that call ``method`` on the loop variable"""
+    """for-loops over every open run's bundler that call ``method`` on the loop variable in every iteration: the call sits
+    in a top-level statement of the loop body (``with`` / ``try`` bodies are looked through) and is evaluated unconditionally
+    there, and nothing in the body skips a run"""
     out = []
     for s in A.walk_stmts(func_node.body):
         if iterates_all_bundlers(s) and A.method_calls(s, method):
             # the loop body must not skip runs
             skips = [x for x in A.walk_stmts(s.body) if isinstance(x, (ast.Break, ast.Continue, ast.Return))]
-            if not skips:
+            if skips:
+                continue
+            tops = []
+
+            def collect(block):
+                for x in block:
+                    if isinstance(x, (ast.With, ast.AsyncWith)):
+                        collect(x.body)
+                    elif isinstance(x, ast.Try):
+                        collect(x.body)
+                    else:
+                        tops.append(x)
+
+            collect(A.body(s.body))
+            ok = False
+            for x in tops:
+                if isinstance(x, (ast.If, ast.While, ast.For, ast.AsyncFor, ast.Try, ast.FunctionDef, ast.AsyncFunctionDef, ast.ClassDef, ast.Match)):
+                    continue
+                for c in A.method_calls(x, method):
+                    if evaluated_unconditionally(x, c):
+                        ok = True
+            if ok:
                 out.append(s)
     return out
